@@ -424,7 +424,8 @@ fn gen_ts(rng: &mut Rng, now: u64, last_explicit: &mut u64) -> Option<u64> {
 }
 
 fn gen_ttl(rng: &mut Rng) -> u64 {
-    *rng.pick(&[0u64, 1, 1, 1, 2, 2, 5, 60, 1_000_000, u64::MAX / 3, u64::MAX])
+    // (the last ones straddle the point where seconds * 10^9 no longer fits 64 bits)
+    *rng.pick(&[0u64, 1, 1, 1, 2, 2, 5, 60, 1_000_000, u64::MAX / 3, u64::MAX, 18_446_744_073, 18_446_744_074, 36_893_488_148, 1 << 40, 1 << 55, 1 << 63])
 }
 
 fn gen_op(rng: &mut Rng, sut: &Sut, last_explicit: &mut u64) -> Op {
